@@ -72,7 +72,10 @@ def main():
             t = os.path.join("/repo", target_dir, base)
             shutil.copy(f, t); placed.append(t)
         cmd = None
-        for line in run_txt.splitlines():
+        lines = run_txt.splitlines()
+        # prefer a line that is a command on its own
+        pref = [l for l in lines if re.match(r"^\s*(\$ |\d+\. )?`?go (test|run) ", l)]
+        for line in (pref or lines):
             if "go test" in line or "go run" in line:
                 cmd = line.strip().lstrip("$ ").strip("`").strip()
                 cmd = re.sub(r"^.*?(go (test|run))", r"\1", cmd)
